@@ -78,18 +78,31 @@ Definition rp_spec (snap : list sx) (root out : bytes) (follow : bool) : bool :=
                        | _ => true
                        end) checked))).
 
+(* 4th component (follow = true only): what the kernel answers to chroot(root); chdir(Join("/",
+   path)); getcwd() — (0 cwd) | (1 errno) — against Fs.resolve with the process root set to
+   root.  It is NOT part of the specification: RootPath deviates from it (theorem
+   rootpath_is_chroot_resolution_refuted); the generator counts how often. *)
+Definition enc_cw (r : bytes + errno) : sx :=
+  match r with inl p => SL [SN 0; SB p] | inr e => SL [SN 1; SN (errno_code e)] end.
+
 Definition run_1403 (input impl : sx) : sx :=
   match input with
   | SL [SL ops; SB root; SB path; fl] =>
     match sx_bool fl, run_ops (ctx_init, fs_init) ops [] with
     | Some follow, Some (f, rs) =>
+      let cw := if follow then
+                  match resolve_ino ctx_init f root true with
+                  | inl ri => enc_cw (chroot_cwd f ri (join2 [sep] path))
+                  | inr e => SL [SN 1; SN (errno_code e)]
+                  end
+                else SL [] in
       let model := SL [SL rs; enc_snapshot (snapshot_from f 1);
-                       enc_rp (copy_root_path ctx_init f root path follow)] in
+                       enc_rp (copy_root_path ctx_init f root path follow); cw] in
       match impl with
-      | SL [_; SL snap; SL [SN 0; SB out]] =>
+      | SL [_; SL snap; SL [SN 0; SB out]; _] =>
         let ok := rp_spec snap root out follow in
         verdict model impl ok (SL [SN 1])
-      | SL [_; SL _; SL [SN 1; SN _]] => verdict model impl true (SL [])
+      | SL [_; SL _; SL [SN 1; SN _]; _] => verdict model impl true (SL [])
       | _ => v_malformed
       end
     | _, _ => v_malformed
